@@ -12,7 +12,7 @@ CHECKS = {
                 note="Queue/Thread stand-ins assumed faithful to queue.Queue/threading.Thread for the operations used; pre-emption is at line granularity; the calibration loop is played by the harness."),
     "C01": dict(engine="calsim", category="exploration", design="4/C01",
                 technique="deterministic simulation: twin executions of a real Calibrator under perturbed simulated environments (worker pool order/isolation, verbosity, folder, constructor seeds, ambient RNG, clock jumps, RL thread schedule), bitwise comparison",
-                text="Each generated configuration is executed in a baseline and in 1-3 perturbed simulated environments (worker count with pickle isolation and seeded completion order, verbosity, folder, constructor seeds, ambient RNG, clock jumps, RL thread schedule, an unrelated calibration run first in the same process); histories, return values and the (theta, N, seed) sequence of model calls must be bit-identical, or both must raise the same exception type at the same point. 8% of the scenarios are also executed in a fresh interpreter under another PYTHONHASHSEED and about 1.5% on real joblib/loky worker processes. Seeded sampling over configurations and perturbations.",
+                text="Each generated configuration is executed in a baseline and in 1-3 perturbed simulated environments (worker count with pickle isolation and seeded completion order, verbosity, folder, constructor seeds, ambient RNG, clock jumps, RL thread schedule, an unrelated calibration run first in the same process; thread-based pools are simulated as baton-scheduled threads sharing the interpreter, with a model that draws from numpy's global generator); histories, return values and the (theta, N, seed) sequence of model calls must be bit-identical, or both must raise the same exception type at the same point. 8% of the scenarios are also executed in a fresh interpreter under another PYTHONHASHSEED and about 1.5% on real joblib/loky worker processes. Seeded sampling over configurations and perturbations.",
                 note="joblib.Parallel is modelled by SimParallel (lazy dispatch, pickle isolation, seeded completion order), real loky is not run; another PYTHONHASHSEED only through the runner's fresh-interpreter probe."),
     "C02": dict(engine="calsim", category="exploration", design="4/C02",
                 technique="deterministic simulation: seam recordings (sampler returns, model dispatch/completion, loss evaluations) rebuilt into a reference history; append-only re-hash at every seam event",
@@ -36,7 +36,7 @@ CHECKS = {
                 note="Ties at the selection threshold may be broken either way; clipping or snapping both count as 'confined to the space'."),
     "C09": dict(engine="calsim", category="exploration", design="4/C09",
                 technique="deterministic simulation: op histories (calibrate / crash+restore / crash-inside-batch+restore) on a real Calibrator, sampler-seam record compared with reference round-robin and RL scheduling models",
-                text="The sampler seam records which position of scheduler.samplers produced each batch over the calibration's whole life, across repeated calibrate() calls and restores from the simulated folder; round-robin must be position i mod n with that sampler's batch size; RL must bootstrap with Halton (added iff absent), use only the supplied set, and use positions that form an in-order subsequence of the agent's policy values (scripted or epsilon-greedy, seeded thread schedules); the four constructor argument combinations are probed.",
+                text="The sampler seam records which position of scheduler.samplers produced each batch over the calibration's whole life, across repeated calibrate() calls and restores from the simulated folder; round-robin must be position i mod n of the SUPPLIED line-up (also when it lists one object twice) with that sampler's batch size, also after sessions ended by the convergence stop and with diverging simulations; RL must bootstrap with Halton (added iff absent), use only the supplied set, and use positions that form an in-order subsequence of the agent's policy values (scripted or epsilon-greedy, seeded thread schedules); the four constructor argument combinations are probed.",
                 note="Which pending action is dropped at a session end is deliberately left to C10."),
     "C11": dict(engine="calsim", category="fault_enumeration", design="4/C11",
                 technique="deterministic simulation with fault injection: an exception injected at EVERY invocation index of the model, the loss and sample() of sampled configurations, compared against the fault-free twin",
